@@ -555,31 +555,14 @@ func ruleC01_5(c *Ctx) {
 		c.undecided(R, "in_toto.loadPayload", "anchor", 0, "strict payload decoder not found")
 		return
 	}
-	n := 0
-	for _, call := range callsIn(lp, "(*encoding/json.Decoder).Decode") {
-		tgt := typeStr(call.Common().Args[1].Type())
-		if tgt != "*in_toto.Link" && tgt != "*in_toto.Layout" {
-			if mi, ok := call.Common().Args[1].(*ssa.MakeInterface); ok {
-				tgt = typeStr(mi.X.Type())
-			}
-		}
-		if tgt != "*in_toto.Link" && tgt != "*in_toto.Layout" {
-			continue
-		}
-		n++
-		dec := call.Common().Args[0]
-		strict := false
-		for _, d := range callsIn(lp, "(*encoding/json.Decoder).DisallowUnknownFields") {
-			if d.Common().Args[0] == dec && instrDominates(d, call) {
-				strict = true
-			}
-		}
-		c.check(strict, R, fname(lp), "Decode into "+tgt, call.Pos(), "DisallowUnknownFields() on the same decoder dominates Decode", "Decode into "+tgt+" without DisallowUnknownFields on that decoder: unknown fields outside the signed schema are accepted")
-		fromParam := derives(dec, func(v ssa.Value) bool { return v == ssa.Value(lp.Params[0]) }, true)
-		c.check(fromParam, R, fname(lp), "decoder input for "+tgt, call.Pos(), "decoder reads the payload bytes parameter", "decoder does not read the bytes that were inspected for _type")
+	sds := c.strictDecodes(lp)
+	for _, sd := range sds {
+		tgt := sd.targetT
+		c.check(sd.strict, R, fname(lp), "Decode into "+tgt, sd.site.Pos(), "DisallowUnknownFields() on the same decoder dominates Decode", "Decode into "+tgt+" without DisallowUnknownFields on that decoder: unknown fields outside the signed schema are accepted")
+		c.check(sd.fromBytes, R, fname(lp), "decoder input for "+tgt, sd.site.Pos(), "decoder reads the payload bytes parameter", "decoder does not read the bytes that were inspected for _type")
 	}
-	if n < 2 {
-		c.bad(R, fname(lp), "strict decodes", lp.Pos(), fmt.Sprintf("expected 2 strict Decode calls (Link, Layout), found %d", n))
+	if len(sds) < 2 {
+		c.bad(R, fname(lp), "strict decodes", lp.Pos(), fmt.Sprintf("expected 2 strict Decode calls (Link, Layout), found %d", len(sds)))
 	}
 	// no lax decoding into Link/Layout/Metablock anywhere in in_toto
 	lax := 0
@@ -599,4 +582,91 @@ func ruleC01_5(c *Ctx) {
 	if lax == 0 {
 		c.ok(R, "in_toto", "no lax json.Unmarshal into Link/Layout/Metablock", 0, "scanned all in_toto functions")
 	}
+}
+
+// ---------------------------------------------------------------------------
+// strict decode sites of the payload loader
+
+// strictDecode describes one decode of the payload bytes into a Link / Layout variable of function f: directly
+// ((*json.Decoder).Decode(&x)), or through one unexported helper h(bytes, &x) that does it with its parameters.
+type strictDecode struct {
+	site      ssa.CallInstruction // the call in f (Decode itself or the helper call)
+	decode    ssa.CallInstruction // the Decode call (in f or in the helper)
+	frame     *ssa.Function       // function that contains decode
+	target    ssa.Value           // the &x argument in f
+	targetT   string              // *in_toto.Link / *in_toto.Layout
+	strict    bool                // DisallowUnknownFields on the same decoder dominates Decode
+	fromBytes bool                // the decoder reads f's payload bytes parameter
+	errFails  bool                // a Decode error fails f
+}
+
+func (c *Ctx) strictDecodes(f *ssa.Function) []strictDecode {
+	var out []strictDecode
+	targetType := func(v ssa.Value) string {
+		if mi, ok := v.(*ssa.MakeInterface); ok {
+			v = mi.X
+		}
+		return typeStr(v.Type())
+	}
+	fails := func(call ssa.CallInstruction) bool {
+		if e := errResult(call); e != nil {
+			for _, br := range errBranches(e) {
+				if c.failing(br.NonNil) {
+					return true
+				}
+			}
+		}
+		return false
+	}
+	inspect := func(fr *ssa.Function, call ssa.CallInstruction, bytesOK func(dec ssa.Value) bool) (strict, fromBytes bool) {
+		dec := call.Common().Args[0]
+		for _, d := range callsIn(fr, "(*encoding/json.Decoder).DisallowUnknownFields") {
+			if d.Common().Args[0] == dec && instrDominates(d, call) {
+				strict = true
+			}
+		}
+		return strict, bytesOK(dec)
+	}
+	for _, call := range callsIn(f, "(*encoding/json.Decoder).Decode") {
+		t := targetType(call.Common().Args[1])
+		if t != "*in_toto.Link" && t != "*in_toto.Layout" {
+			continue
+		}
+		strict, fromBytes := inspect(f, call, func(dec ssa.Value) bool {
+			return derives(dec, func(v ssa.Value) bool { return v == ssa.Value(f.Params[0]) }, true)
+		})
+		out = append(out, strictDecode{call, call, f, call.Common().Args[1], t, strict, fromBytes, fails(call)})
+	}
+	for _, via := range allCalls(f) {
+		g := via.Common().StaticCallee()
+		if !c.isStageHelper(g) || !hasErrResult(via) {
+			continue
+		}
+		for _, call := range callsIn(g, "(*encoding/json.Decoder).Decode") {
+			// the decode target is a parameter of g; the actual argument at the call site is &Link / &Layout
+			prm, ok := resolve(call.Common().Args[1], call).(*ssa.Parameter)
+			if !ok || prm.Parent() != g {
+				continue
+			}
+			actual := via.Common().Args[paramIndex(prm)]
+			t := targetType(actual)
+			if t != "*in_toto.Link" && t != "*in_toto.Layout" {
+				continue
+			}
+			strict, fromBytes := inspect(g, call, func(dec ssa.Value) bool {
+				okB := false
+				derives(dec, func(v ssa.Value) bool {
+					if bp, isP := v.(*ssa.Parameter); isP && bp.Parent() == g {
+						if derives(via.Common().Args[paramIndex(bp)], func(x ssa.Value) bool { return x == ssa.Value(f.Params[0]) }, true) {
+							okB = true
+						}
+					}
+					return false
+				}, true)
+				return okB
+			})
+			out = append(out, strictDecode{via, call, g, actual, t, strict, fromBytes, c.helperGuarantees(g, call) && fails(via)})
+		}
+	}
+	return out
 }
